@@ -31,12 +31,20 @@ namespace MongoModel.Spec.Pipe
 open MongoModel MongoModel.Spec.Order
 
 /-- keep what the query selects; the oracle is silent when the query rules are -/
-def specMatch (f : Val) : List Val → Option (List Val)
+def specMatchAll (f : Val) : List Val → Option (List Val)
   | [] => some []
   | d :: ds =>
-    match specMatches f d, specMatch f ds with
+    match specMatches f d, specMatchAll f ds with
     | .ok b, some r => some (if b then d :: r else r)
     | _, _ => none
+
+/-- … a query is checked even when there is nothing to select from -/
+def specMatch (f : Val) (docs : List Val) : Option (List Val) :=
+  match docs with
+  | [] => (match specMatches f (.doc []) with
+    | .ok _ => some []
+    | .error _ => none)
+  | _ => specMatchAll f docs
 
 /-- `{field: 1 | -1, …}` -/
 def specSortSpec : Fields → Option SortSpec
